@@ -52,6 +52,9 @@ CLASSES = [
     ("pybrops.popgen.gmat.DenseGenotypeMatrix", "DenseGenotypeMatrix", "np", "int8", {"ploidy": 2}),
     ("pybrops.popgen.gmat.DensePhasedGenotypeMatrix", "DensePhasedGenotypeMatrix", "mnp", "int8", {}),
     ("pybrops.popgen.cmat.DenseMolecularCoancestryMatrix", "DenseMolecularCoancestryMatrix", "nn", "float64", {}),
+    # variance matrices with three and four square taxa axes (they inherit every structural operation from DenseSquareTaxaMatrix)
+    ("pybrops.model.vmat.DenseThreeWayDHAdditiveGenicVarianceMatrix", "DenseThreeWayDHAdditiveGenicVarianceMatrix", "nnnt", "float64", {}),
+    ("pybrops.model.vmat.DenseFourWayDHAdditiveGeneticVarianceMatrix", "DenseFourWayDHAdditiveGeneticVarianceMatrix", "nnnnt", "float64", {}),
 ]
 PATCH = ["pybrops.*", "pybrops.core.error.error_type_python", "pybrops.core.error.error_value_python",
          "pybrops.core.error.error_type_numpy", "pybrops.core.error.error_value_numpy",
